@@ -22,6 +22,7 @@ RULE = ("Base texts: trees rendered by the harness's renderer (zoned DTSTART/DTE
         "(values and parameter values untouched). Both providers; zone cache reset before each parse. Oracle: extract(parse(variant)) "
         "== extract(parse(base)) incl. UTC offsets and zone ids of all date-times, and identical to_ical. Non-trivial: the variant "
         "differs from the base and the tree has a zoned or list-valued property; distinct by hash.")
+RULE += ' Rounds 7-8: X-PAD lines of 1 Ki - 390 Ki characters with folds aimed at absolute offsets k*2^n +-4; Calendar/Component/user-subclass entry points with node classes compared; single content lines through Contentline.from_ical(strict=False/True) under refolding.'
 ASSUMPTIONS = ["a fold inside the octets of one character is not a rewrite of C09 ('between characters')",
                "a str carries no byte-order mark: BOM composed with str decodes with utf-8-sig first"]
 REQUIRED_CLASSES = ["rw:lf", "rw:bom", "rw:str", "rw:refold", "rw:blank", "rw:case", "case-on-tzid-line", "case-on-freebusy-line", "lowercase-end-vtimezone",
